@@ -20,6 +20,8 @@
 //	  whether registered before, during or after Trigger.
 //	Variants (variants.go): OnUpdateOnce, OnUpdateWithContext, WithValue, WithNonEmptyValue,
 //	  LogUpdates (Variable and Event) and Set.WithElements as first-class subscribers.
+//	Disciplines (discipline.go): sequential scripts with failing / re-entrant user code and held + scribbled results
+//	  against an exact model; "never returns" decided structurally through a gdump actor.
 package main
 
 import (
@@ -1658,6 +1660,8 @@ func runOne(scenario string, rng *rand.Rand) ([]viol, runStats) {
 		return runTeardown(rng)
 	case "variants":
 		return runVariants(rng)
+	case "discipline":
+		return runDiscipline(rng)
 	}
 	panic("unknown scenario " + scenario)
 }
@@ -1713,7 +1717,7 @@ func child(c *vf.Ctx) {
 	}
 }
 
-var scenarios = []string{"var", "set", "event", "teardown", "variants"}
+var scenarios = []string{"var", "set", "event", "teardown", "variants", "discipline"}
 
 func run(c *vf.Ctx) {
 	if c.Replay != "" {
@@ -1737,17 +1741,17 @@ func run(c *vf.Ctx) {
 		}
 		return
 	}
-	c.SetRule("one evaluation = one run: a fresh reactive Variable / Set / Event driven by 1-4 seeded writer goroutines (Set, Compute, DefaultTo, Init, ToggleValue and its reset, writes arriving through InheritFrom/DeriveValueFrom, readers holding Variable.Read; on events every write method with true and false around and after Trigger; Add, Delete, AddAll, DeleteAll, Apply, Compute, Replace, Clear, Decode; Trigger) racing with 1-6 goroutines that subscribe and unsubscribe at seeded points (with/without triggerWithInitialZeroValue, slow callbacks; unsubscribe functions are called 1-3 times, redundant calls sequentially or from other goroutines), followed by tail writes after all subscription activity, checked after join against the writers' own chain / returned mutations / exact single-writer model; runs are distinct by construction (run seed); scenario variants: the derived subscription variants (OnUpdateOnce with/without condition, OnUpdateWithContext, WithValue with/without condition, WithNonEmptyValue, LogUpdates on Variable and Event; Set.WithElements with/without condition) subscribe and unsubscribe on a usually already non-zero value while 1-3 writers hand out unique increasing values, each checked against the writers' chain (one-shot: exactly the first satisfying element of its stream, state at subscription time first); distinct_nontrivial counts runs in which at least one OnUpdate/OnTrigger call overlapped (by logical ticks) a value-changing write")
+	c.SetRule("one evaluation = one run: a fresh reactive Variable / Set / Event driven by 1-4 seeded writer goroutines (Set, Compute, DefaultTo, Init, ToggleValue and its reset, writes arriving through InheritFrom/DeriveValueFrom, readers holding Variable.Read; on events every write method with true and false around and after Trigger; Add, Delete, AddAll, DeleteAll, Apply, Compute, Replace, Clear, Decode; Trigger) racing with 1-6 goroutines that subscribe and unsubscribe at seeded points (with/without triggerWithInitialZeroValue, slow callbacks; unsubscribe functions are called 1-3 times, redundant calls sequentially or from other goroutines), followed by tail writes after all subscription activity, checked after join against the writers' own chain / returned mutations / exact single-writer model; runs are distinct by construction (run seed); scenario variants: the derived subscription variants (OnUpdateOnce with/without condition, OnUpdateWithContext, WithValue with/without condition, WithNonEmptyValue, LogUpdates on Variable and Event; Set.WithElements with/without condition) subscribe and unsubscribe on a usually already non-zero value while 1-3 writers hand out unique increasing values, each checked against the writers' chain (one-shot: exactly the first satisfying element of its stream, state at subscription time first); scenario discipline: sequential scripts (every library call through one gdump actor, so a call that never returns is decided structurally) on a Variable (with transformation function, optionally inheriting from a source) / Event / Set in which user code - subscriber callbacks, OnUpdateOnce conditions, withinContext subscribe functions, WithValue/WithNonEmptyValue/WithElements set-up, teardown and condition functions, LogUpdates stringers and log receivers, DerivedVariable compute functions, Compute functions, mutation factories, transformation and Read functions - panics at seeded invocations (initial invocation or later update; recovered by the caller) or re-enters the object (Get/Read/ranging, subscribing, unsubscribing earlier/later subscribers, Trigger on a triggered event, subscribing/unsubscribing from a Compute function or mutation factory), after which the script goes on writing, subscribing and unsubscribing with polite user code; in mode held the mutation sets handed to callbacks and returned to writers, ToSlice results and set / mutation-set arguments are kept with a copy, compared after each of the next three steps and then overwritten; every subscription is compared with the exact sequential model (state at subscription, then exactly the value-changing writes between its subscribe and unsubscribe calls; an update in whose round user code panicked or in whose round the subscription was unsubscribed by another callback is optional; a subscription whose own user code panicked only owes an in-order duplicate-free subset); runs in which user code panicked inside a writer's round end there (the unchanged tree keeps that callback's execution lock); distinct_nontrivial counts runs in which at least one OnUpdate/OnTrigger call overlapped (by logical ticks) a value-changing write")
 	total := c.Pick(20000, 600000)
 	share := map[string]int{"var": total * 41 / 100, "set": total * 41 / 100, "event": total * 10 / 100, "teardown": total * 8 / 100,
-		"variants": total * 25 / 100} // on top of the original shares
+		"variants": total * 25 / 100, "discipline": total * 20 / 100} // on top of the original shares
 	chunk := c.Pick(500, 6000)
 	var jobs []job
 	for _, scn := range scenarios {
 		n := share[scn]
 		// two thirds plain (runtime dead-lock detector), one third -race (race detector + snapshot rule)
 		nPlain := n * 2 / 3
-		if scn == "teardown" {
+		if scn == "teardown" || scn == "discipline" {
 			nPlain = n // scripted with structural blocked/returned decisions: needs a process without the snapshot monitor's timer
 		}
 		for s := 0; s < n; s += chunk {
@@ -1756,6 +1760,7 @@ func run(c *vf.Ctx) {
 		}
 	}
 	vf.Parallel(len(jobs), 6, func(i int) { runJob(c, jobs[i], time.Duration(c.Pick(4, 15))*time.Minute) })
+	c.Note("observation (not demanded, outside the statement): user code that panics while a WRITER notifies the subscribers leaves that callback's execution lock held on the unchanged tree - the next write parks for ever holding the update-order mutex, the subscription's unsubscribe call parks too (see proposed_fixes/C13-callback-panic-in-update-round-leaves-execution-lock-held.*); scenario discipline ends such runs at the panic (counter disc_runs_with_panic_in_update_round)")
 	c.Assume("the Go race detector and runtime dead-lock detector are sound; the process-wide atomic tick counter is linearizable")
 	c.Require("evaluations", total*9/10)
 	c.Require("subscriptions", total)
@@ -1784,6 +1789,25 @@ func run(c *vf.Ctx) {
 	c.Require("value_setups", total/10)
 	c.Require("element_setups", total/10)
 	c.Require("nontrivial", max(100, c.Pick(300, 10000)*par/4))
+	// scenario "discipline" (sequential scripts, nothing depends on overlap): failing user code followed by further use,
+	// re-entrant user code, held results and scribbling
+	c.Require("runs:discipline", total*18/100)
+	c.Require("disc_panics_at_initial_invocation", total/40)
+	c.Require("disc_panics_during_update_round", total/40)
+	c.Require("disc_tail_writes_after_discipline", total/10)
+	for _, site := range []string{"cb", "cond", "setup", "teardown", "subscribe", "stringer", "logattrs", "compute", "transform", "factory", "read", "handler"} {
+		c.Require("disc_panics:"+site, total/2000)
+	}
+	for _, act := range []string{"get", "read", "sub", "unsub-earlier", "unsub-later", "unsub-other", "sub-from-factory", "unsub-from-factory", "unsub-from-compute", "trigger"} {
+		c.Require("disc_reentrant:"+act, total/400)
+	}
+	c.Require("disc_held_rechecks", total/2)
+	c.Require("disc_scribbled_objects", total/4)
+	c.Require("disc_scribbled_arguments", total/20)
+	c.Require("disc_scribbled_initial_mutations", total/50)
+	if demandUsableAfterRoundPanic {
+		c.Require("disc_steps_after_round_panic", total/20)
+	}
 }
 
 func main() { vf.Main("C13", "exploration", run, child) }
